@@ -2,15 +2,15 @@
    gives the eager value {**f(x), **extra}.  Anchors: tf_pwa/data.py LazyCall.eval / __iter__ /
    _extra_batches (after d64dc15), data_merge.  Model: State/Data.v; earlier lemmas: State/Data_proofs.v.
 
-   Result.
-   * the statement "as written" (Props/Properties_C18.v, C18_lazy_full_statement: only `uniform n extra`)
-     is FALSE for the model: a non-empty extra WITHOUT any array is split on its own with the bound
-     MAX_ITER (mx); when x needs more batches than mx the zip stops early (lazy_full_as_written_refuted).
-   * corrected statement lazy_with_extra_eq_eager: extra is either empty (forest_of extra = FNil: {} or,
-     in the model, any child-less value) or has n rows in every array and at least one array.
+   Result (model after /repo 81b15cd: the extra entries follow the data batches).
+   * lazy_with_extra_eq_eager: the full statement C18_lazy_full_statement of Props/Properties_C18.v,
+     exactly as written (hypothesis on extra: `uniform n extra` only), holds for lazy_batches.
      No hypothesis on the keys of fn's results is needed: `commutes fn` (quantified over ALL pieces)
      already forces fn to return the same number of entries on every batch (fn_width_const).
-   * lazy_with_extra_gen also covers the array-free non-empty extra when nbatches n b <= mx. *)
+   * the intermediate iteration lazy_batches_d64 (d64dc15 .. 81b15cd) violated it: a non-empty extra
+     WITHOUT any array was split on its own with the bound MAX_ITER (mx); when x needs more batches
+     than mx the zip stopped early (lazy_d64_array_free_extra_refuted).  lazy_d64_with_extra is what
+     that version satisfied. *)
 From Coq Require Import ZArith List Bool Arith Lia.
 From TFV Require Import State.Data State.Data_proofs.
 Import ListNotations.
@@ -153,29 +153,16 @@ Proof.
 Qed.
 
 (* ------------------------------------------------------------------ lazy = eager with extra entries *)
-(* empty extra ({}; in the model any value without children): the batches repeat {} *)
-Lemma lazy_empty_extra : forall fn mx b n x extra, commutes fn ->
-  0 < b -> 0 < n -> uniform n x -> has_leaf x = true -> forest_of extra = FNil ->
-  merge_all (lazy_batches fn mx b x extra) = Some (lazy_eval fn x extra).
+(* core: the batches of x zipped with at least as many pieces of extra *)
+Lemma lazy_zip_core : forall fn b n x extra c, commutes fn ->
+  0 < b -> 0 < n -> uniform n x -> uniform n extra -> nbatches n b <= c ->
+  merge_all (zipw dict_union (map fn (map (fun i => pick b i x) (seq 0 (nbatches n b))))
+                             (map (fun i => pick b i extra) (seq 0 c)))
+  = Some (lazy_eval fn x extra).
 Proof.
-  intros fn mx b n x extra Hf Hb Hn Hu Hl HE.
-  unfold lazy_batches, lazy_eval, dict_union. rewrite HE.
-  exact (lazy_eq_eager fn mx b n x Hf Hb Hn Hu Hl).
-Qed.
-
-(* general form: extra splits into at least as many pieces as x *)
-Theorem lazy_with_extra_gen : forall fn mx b n x extra, commutes fn ->
-  0 < b -> 0 < n -> uniform n x -> has_leaf x = true ->
-  uniform n extra -> (has_leaf extra = true \/ nbatches n b <= mx) ->
-  merge_all (lazy_batches fn mx b x extra) = Some (lazy_eval fn x extra).
-Proof.
-  intros fn mx b n x extra Hf Hb Hn Hu Hl Hue Hor.
-  destruct (forest_of extra) as [|ekey ed er] eqn:HE.
-  { apply (lazy_empty_extra fn mx b n x extra); assumption. }
+  intros fn b n x extra c Hf Hb Hn Hu Hue Hc.
   pose proof (nbatches_pos n b Hn) as HK.
-  destruct (data_split_seq_any mx b n extra Hue Hor) as [c [Hc Hse]].
-  unfold lazy_batches. rewrite HE.
-  rewrite (data_split_seq mx b n x Hu Hl), Hse, map_map, zipw_map_seq.
+  rewrite map_map, zipw_map_seq.
   rewrite (Nat.min_l _ _ Hc), (seq_0_S_pred _ HK).
   cbn [map merge_all]. f_equal.
   unfold lazy_eval, dict_union. cbn [merge]. f_equal.
@@ -192,26 +179,17 @@ Proof.
     rewrite (proj1 (merge_picks b _ Hb HK) extra (proj1 (uniform_cover b n) extra Hue)). reflexivity.
 Qed.
 
-(* FINAL: LazyCall with extra entries.  extra is empty, or every array of extra has the n rows of x
-   and extra contains at least one array. *)
+(* FINAL: LazyCall with extra entries, current iteration (extra follows the data batches): the full
+   statement of Props/Properties_C18.v (C18_lazy_full_statement), exactly as written there *)
 Theorem lazy_with_extra_eq_eager : forall fn mx b n x extra, commutes fn ->
-  0 < b -> 0 < n -> uniform n x -> has_leaf x = true ->
-  (forest_of extra = FNil \/ (uniform n extra /\ has_leaf extra = true)) ->
-  merge_all (lazy_batches fn mx b x extra) = Some (lazy_eval fn x extra).
-Proof.
-  intros fn mx b n x extra Hf Hb Hn Hu Hl [HE|[Hue Hle]].
-  - apply (lazy_empty_extra fn mx b n x extra); assumption.
-  - apply (lazy_with_extra_gen fn mx b n x extra); auto.
-Qed.
-
-(* the statement of Props/Properties_C18.v with the one added hypothesis *)
-Corollary lazy_full_corrected : forall fn mx b n x extra, commutes fn ->
   0 < b -> 0 < n -> uniform n x -> has_leaf x = true -> uniform n extra ->
-  (forest_of extra = FNil \/ has_leaf extra = true) ->
   merge_all (lazy_batches fn mx b x extra) = Some (lazy_eval fn x extra).
 Proof.
-  intros fn mx b n x extra Hf Hb Hn Hu Hl Hue [HE|Hle];
-    apply (lazy_with_extra_eq_eager fn mx b n x extra); auto.
+  intros fn mx b n x extra Hf Hb Hn Hu Hl Hue.
+  unfold lazy_batches. cbv zeta.
+  rewrite (data_split_seq mx b n x Hu Hl), map_length, seq_length.
+  destruct (data_split_seq_any (nbatches n b) b n extra Hue (or_intror (le_n _))) as [c [Hc Hse]].
+  rewrite Hse. apply lazy_zip_core; assumption.
 Qed.
 
 (* the empty extra of Data_proofs.lazy_eq_eager is an instance *)
@@ -220,35 +198,68 @@ Corollary lazy_eq_eager_instance : forall fn mx b n x, commutes fn ->
   merge_all (lazy_batches fn mx b x empty_dict) = Some (lazy_eval fn x empty_dict).
 Proof.
   intros fn mx b n x Hf Hb Hn Hu Hl.
-  apply (lazy_with_extra_eq_eager fn mx b n x empty_dict); auto.
+  apply (lazy_with_extra_eq_eager fn mx b n x empty_dict); auto. exact I.
 Qed.
 
-(* ------------------------------------------------------------------ the refuted corner *)
-(* C18_lazy_full_statement exactly as written in Props/Properties_C18.v *)
-Definition lazy_full_as_written : Prop :=
+(* ------------------------------------------------------------------ the intermediate iteration (d64dc15 .. 81b15cd) *)
+(* empty extra ({}; in the model any value without children): the batches repeat {} *)
+Lemma lazy_d64_empty_extra : forall fn mx b n x extra, commutes fn ->
+  0 < b -> 0 < n -> uniform n x -> has_leaf x = true -> forest_of extra = FNil ->
+  merge_all (lazy_batches_d64 fn mx b x extra) = Some (lazy_eval fn x extra).
+Proof.
+  intros fn mx b n x extra Hf Hb Hn Hu Hl HE.
+  unfold lazy_batches_d64, lazy_eval, dict_union. rewrite HE.
+  assert (Hw : commutes (fun p => wrap (fn p))).
+  { intros d0 others. rewrite <- (map_map fn wrap), wrap_commutes, Hf. reflexivity. }
+  exact (batch_call_eq (fun p => wrap (fn p)) mx b n x Hw Hb Hn Hu Hl).
+Qed.
+
+(* what that version did satisfy: extra empty, or with an array, or no more batches than MAX_ITER *)
+Theorem lazy_d64_with_extra : forall fn mx b n x extra, commutes fn ->
+  0 < b -> 0 < n -> uniform n x -> has_leaf x = true -> uniform n extra ->
+  (forest_of extra = FNil \/ has_leaf extra = true \/ nbatches n b <= mx) ->
+  merge_all (lazy_batches_d64 fn mx b x extra) = Some (lazy_eval fn x extra).
+Proof.
+  intros fn mx b n x extra Hf Hb Hn Hu Hl Hue Hor.
+  destruct (forest_of extra) as [|ekey ed er] eqn:HE.
+  { apply (lazy_d64_empty_extra fn mx b n x extra); assumption. }
+  destruct Hor as [Hbad|Hor]; [discriminate|].
+  destruct (data_split_seq_any mx b n extra Hue Hor) as [c [Hc Hse]].
+  unfold lazy_batches_d64. rewrite HE.
+  rewrite (data_split_seq mx b n x Hu Hl), Hse. apply lazy_zip_core; assumption.
+Qed.
+
+(* the full statement for the intermediate version *)
+Definition lazy_d64_full_statement : Prop :=
   forall fn mx b n x extra, commutes fn ->
     0 < b -> 0 < n -> uniform n x -> has_leaf x = true -> uniform n extra ->
-    merge_all (lazy_batches fn mx b x extra) = Some (lazy_eval fn x extra).
+    merge_all (lazy_batches_d64 fn mx b x extra) = Some (lazy_eval fn x extra).
 
 Definition cx_x : data := Node KDict (FCons 0%Z (Leaf [1%Z; 2%Z]) FNil).
-(* extra = {7: {}}: not empty (so it is split, not repeated), no array (so MAX_ITER bounds its copies) *)
+(* extra = {7: {}}: not empty (so it was split, not repeated), no array (so MAX_ITER bounded its copies) *)
 Definition cx_extra : data := Node KDict (FCons 7%Z (Node KDict FNil) FNil).
 
 Lemma id_commutes : commutes (fun d => d).
 Proof. intros d0 others. rewrite map_id. reflexivity. Qed.
 
 (* witness: fn = identity, MAX_ITER = 1, batch = 1, x = {0: [1,2]}, extra = {7: {}}:
-   only the first batch survives the zip, the row 2 is lost *)
-Example lazy_full_as_written_witness :
+   intermediate version: only the first batch survives the zip, the row 2 is lost;
+   current version: both batches, the merge is the eager value *)
+Example lazy_d64_array_free_extra_witness :
   uniform 2 cx_x /\ has_leaf cx_x = true /\ uniform 2 cx_extra /\ has_leaf cx_extra = false /\
-  merge_all (lazy_batches (fun d => d) 1 1 cx_x cx_extra)
+  merge_all (lazy_batches_d64 (fun d => d) 1 1 cx_x cx_extra)
     = Some (Node KDict (FCons 0%Z (Leaf [1%Z]) (FCons 7%Z (Node KDict FNil) FNil))) /\
   lazy_eval (fun d => d) cx_x cx_extra
-    = Node KDict (FCons 0%Z (Leaf [1%Z; 2%Z]) (FCons 7%Z (Node KDict FNil) FNil)).
+    = Node KDict (FCons 0%Z (Leaf [1%Z; 2%Z]) (FCons 7%Z (Node KDict FNil) FNil)) /\
+  length (lazy_batches (fun d => d) 1 1 cx_x cx_extra) = 2 /\
+  merge_all (lazy_batches (fun d => d) 1 1 cx_x cx_extra) = Some (lazy_eval (fun d => d) cx_x cx_extra).
 Proof. vm_compute. repeat split; reflexivity. Qed.
 
-Example lazy_full_as_written_refuted : ~ lazy_full_as_written.
+Example lazy_d64_array_free_extra_refuted :
+  ~ lazy_d64_full_statement /\
+  merge_all (lazy_batches (fun d => d) 1 1 cx_x cx_extra) = Some (lazy_eval (fun d => d) cx_x cx_extra).
 Proof.
+  split; [|vm_compute; reflexivity].
   intros H.
   assert (U : uniform 2 cx_x) by (cbn; auto).
   assert (Ue : uniform 2 cx_extra) by (cbn; auto).
@@ -256,20 +267,12 @@ Proof.
   vm_compute in H. discriminate H.
 Qed.
 
-(* with MAX_ITER = 0 nothing at all is yielded (data_merge would fail its assertion) *)
-Example lazy_array_free_extra_none :
-  merge_all (lazy_batches (fun d => d) 0 1 cx_x cx_extra) = None.
-Proof. reflexivity. Qed.
-
-(* the same extra is harmless as long as x needs no more batches than MAX_ITER *)
-Corollary lazy_array_free_extra_bounded : forall fn mx b n x extra, commutes fn ->
-  0 < b -> 0 < n -> uniform n x -> has_leaf x = true ->
-  uniform n extra -> nbatches n b <= mx ->
-  merge_all (lazy_batches fn mx b x extra) = Some (lazy_eval fn x extra).
-Proof.
-  intros fn mx b n x extra Hf Hb Hn Hu Hl Hue Hmx.
-  apply (lazy_with_extra_gen fn mx b n x extra); auto.
-Qed.
+(* with MAX_ITER = 0 the intermediate version yielded nothing at all (data_merge would fail its
+   assertion); the current one is not affected by MAX_ITER *)
+Example lazy_d64_array_free_extra_none :
+  merge_all (lazy_batches_d64 (fun d => d) 0 1 cx_x cx_extra) = None /\
+  merge_all (lazy_batches (fun d => d) 0 1 cx_x cx_extra) = Some (lazy_eval (fun d => d) cx_x cx_extra).
+Proof. vm_compute. split; reflexivity. Qed.
 
 (* ------------------------------------------------------------------ non-vacuity *)
 Definition ex_fn : data -> data := map_leaves (affine 2 1).
@@ -310,8 +313,15 @@ Proof.
   - lia.
   - cbn. auto.
   - reflexivity.
-  - right. split; [cbn; auto|reflexivity].
+  - cbn. auto.
 Qed.
 
+(* an extra made of empty containers only follows the data batches too *)
+Example lazy_with_array_free_extra_example :
+  let extra := Node KDict (FCons 3%Z (Node KDict FNil) (FCons 4%Z (Node KList (FCons 0%Z (Node KTuple FNil) FNil)) FNil)) in
+  length (lazy_batches ex_fn 1 2 ex_x extra) = 3 /\
+  merge_all (lazy_batches ex_fn 1 2 ex_x extra) = Some (lazy_eval ex_fn ex_x extra).
+Proof. vm_compute. split; reflexivity. Qed.
+
 Print Assumptions lazy_with_extra_eq_eager.
-Print Assumptions lazy_full_as_written_refuted.
+Print Assumptions lazy_d64_array_free_extra_refuted.
